@@ -43,10 +43,15 @@ func vPath(i int) string {
 	return fmt.Sprintf("h.io/p%d", i)
 }
 
-var vMajor2 bool
+var vMajor2, vPatchy bool
 var vShape int // 0: any edge; 1: ring; 2: fan
 
+var vPatchNames = []string{"v1.0.0", "v1.0.1", "v1.1.0", "v1.1.1"}
+
 func vVersion(i, k int) string {
+	if vPatchy {
+		return vPatchNames[k] // versions that differ in the patch number too (for @patch queries)
+	}
 	if i == 2 && vMajor2 {
 		return fmt.Sprintf("v2.%d.0", k)
 	}
